@@ -43,10 +43,12 @@ func commitProgram(st *store.ImmuStore, l *storeh.Ledger, who int, prog string) 
 		if rec.Alh != h.Alh() {
 			sched.Report(fmt.Sprintf("acked-header-mismatch prog=%s", prog), fmt.Sprintf("tx %d: header returned by commit differs from the stored one", h.ID))
 		}
-		if _, dup := l.Acked[h.ID]; dup {
-			sched.Report("id-reassigned", fmt.Sprintf("tx id %d acknowledged twice", h.ID))
-		}
-		l.Acked[h.ID] = rec
+		sched.Shared(func() {
+			if _, dup := l.Acked[h.ID]; dup {
+				sched.Report("id-reassigned", fmt.Sprintf("tx id %d acknowledged twice", h.ID))
+			}
+			l.Acked[h.ID] = rec
+		})
 		return fmt.Sprintf("tx%d", h.ID)
 	}
 	switch prog {
